@@ -43,7 +43,8 @@ class IterE(ListE):
     """An ITERATOR object: the result of a generator expression, a generator function, iter(), zip(), map(), filter(),
     enumerate(), reversed(), itertools.*.  The engine computes its items eagerly (A3); this entry keeps what is still
     to be delivered.  It is not a list (no len / subscripts / == / methods: Unsupported), it is always true, next() takes
-    the first pending item, and a full consumption (list(it), for x in it, sum(it) ...) marks it `consumed`: CPython
+    the first pending item (`for` does the same, so a loop left by `break` leaves the rest), and a full consumption
+    (list(it), a `for` that runs to the end, sum(it) ...) empties it and marks it `consumed`: CPython
     would deliver nothing on a second pass, the engine refuses one (Unsupported) so that no consumer can silently see
     the items twice.  `free`: (activation id, {name: value}) of the free variables a stored generator expression reads -
     CPython evaluates the element expressions only when the generator is consumed, so they must be unchanged then."""
@@ -53,9 +54,11 @@ class IterE(ListE):
     pending = None  # (exception, state at creation): computing the items RAISED without changing anything - CPython raises
     #                 that exception when the iterator is consumed; only a complete consumer (list, sum ...) may take it
 
+    taken = False  # run to its end by the eager evaluation of another lazy iterator built on it (Interp._unchanged)
+
     def copy(self):
         c = IterE(self.items)
-        c.consumed, c.free, c.pending = self.consumed, self.free, self.pending
+        c.consumed, c.free, c.pending, c.taken = self.consumed, self.free, self.pending, self.taken
         return c
 
 
